@@ -422,7 +422,7 @@ class Pool:
         w["task"] = task
         w["t0"] = time.time()
         b = task["obl"].get("budget", 60) * float(os.environ.get("VERIF_BUDGET_SCALE", "1"))
-        w["hard"] = 4 * b + 120
+        w["hard"] = 2 * b + 90
         w["conn"].send(task)
 
     def _dead(self, w, why):
